@@ -559,6 +559,9 @@ static void verif_step(cfg_t *cfg, int level, int force_state, struct pstate *ps
 			watch(v->string);
 		}
 #endif
+#ifdef TRACK_CALLOC
+		n_calloc = 0; /* count the step's own allocations only */
+#endif
 		pre_state = *ps->state;
 		pre_num_values = *ps->num_values;
 		pre_ignore = *ps->ignore;
